@@ -246,10 +246,11 @@ class OptimizationHistory:
             return self.Solution(f_opt, x_opt, False, c_opt, c_opt_grad)
 
         # Case 2: the solution is feasible; we return it.
-        f_opt, x_opt = inf, array([])
+        f_opt = inf
         c_opt = {}
         c_opt_grad = {}
         obj_name = self.objective_name
+        i_opt = None
         for i, output_values in enumerate(feas_f):
             obj_value = output_values.get(obj_name)
             if obj_value is None:
@@ -260,12 +261,21 @@ class OptimizationHistory:
 
             if obj_value < f_opt:
                 f_opt = obj_value
-                x_opt = feas_x[i]
-                for constraint in constraints:
-                    c_name = constraint.name
-                    c_opt[c_name] = output_values.get(c_name)
-                    c_key = Database.get_gradient_name(c_name)
-                    c_opt_grad[constraint.name] = output_values.get(c_key)
+                i_opt = i
+
+        if i_opt is None:
+            # No feasible point has a comparable objective value (missing or NaN);
+            # we return the first feasible point with its objective value if any.
+            i_opt = 0
+            f_opt = feas_f[0].get(obj_name)
+
+        x_opt = feas_x[i_opt]
+        output_values = feas_f[i_opt]
+        for constraint in constraints:
+            c_name = constraint.name
+            c_opt[c_name] = output_values.get(c_name)
+            c_key = Database.get_gradient_name(c_name)
+            c_opt_grad[c_name] = output_values.get(c_key)
 
         if isinstance(f_opt, ndarray) and len(f_opt) == 1:
             f_opt = f_opt[0]
